@@ -221,7 +221,7 @@ class AsgiHttpPeer:
         omit = m.get("omit", ())
         msg = {"type": "http.request"}
         if "body" not in omit:
-            msg["body"] = m.get("body", b"")
+            msg["body"] = bytearray(m.get("body", b"")) if m.get("as_bytearray") else m.get("body", b"")
         if "more_body" not in omit:
             msg["more_body"] = m.get("more_body", False)
         return msg
@@ -229,6 +229,11 @@ class AsgiHttpPeer:
     async def send(self, msg):
         self.send_calls += 1
         idx = self.send_calls
+        if isinstance(msg, dict) and msg.get("type") == "http.response.start" and "headers" in msg and not isinstance(msg["headers"], (list, tuple)):
+            try:    # the spec allows any iterable (also a one-shot generator): a server reads it once
+                msg = dict(msg, headers=list(msg["headers"]))
+            except TypeError:
+                pass
         self.monitor.on_send(msg)
         t = msg.get("type") if isinstance(msg, dict) else None
         self.ctx.sch("send", t, bool(msg.get("more_body", False)) if isinstance(msg, dict) else None,
